@@ -64,6 +64,9 @@ struct W {
     partial_frames: bool,
     /// seq of a SoftStop that was sent (the worker is expected to exit after answering it)
     soft: Option<u64>,
+    /// this case already has a liveness verdict: later reads do not wait again
+    liveness_failed: bool,
+    barriers: u64,
 }
 
 fn make_id(seq: u64, len: usize) -> String {
@@ -161,6 +164,8 @@ impl W {
             unanswerable: vec![],
             partial_frames: false,
             soft: None,
+            liveness_failed: false,
+            barriers: 0,
         })
     }
 
@@ -174,8 +179,12 @@ impl W {
 
     /// next complete frame of the raw stream, waiting until `deadline`
     fn next_frame(&mut self, deadline: Instant, oracle: &mut Vec<(String, String)>) -> Option<WorkerResponse> {
-        // a healthy worker answers within milliseconds: give up after a silence window without a byte
-        let silence = silence_window();
+        self.next_frame_within(deadline, silence_window(), oracle)
+    }
+
+    /// next complete frame; gives up at `deadline` or after `silence` without a single byte
+    /// (quiescence of the channel), whichever comes first: no wait is unbounded
+    fn next_frame_within(&mut self, deadline: Instant, silence: Duration, oracle: &mut Vec<(String, String)>) -> Option<WorkerResponse> {
         let mut last_byte = Instant::now();
         loop {
             if self.rx.len() >= 8 {
@@ -253,12 +262,22 @@ impl W {
     fn read_finals(&mut self, k: usize, oracle: &mut Vec<(String, String)>) -> Vec<String> {
         let target = k.min(self.outstanding.len());
         let mut got = vec![];
-        // two silence windows: the second one is the confirmation
-        for _attempt in 0..2 {
+        let confirmed = CONFIRMED.load(std::sync::atomic::Ordering::Relaxed);
+        // 1. wait for the answers themselves: quiescence windows (the second is the confirmation);
+        //    once this case has a liveness failure nothing more is awaited, and after a failure was
+        //    confirmed in this process (shrinker re-runs) one short window is enough
+        let (windows, silence) = if self.liveness_failed {
+            (1, Duration::from_millis(30))
+        } else if confirmed {
+            (1, Duration::from_millis(100))
+        } else {
+            (2, Duration::from_secs(6))
+        };
+        for _ in 0..windows {
             let deadline = Instant::now() + Duration::from_secs(60);
             while got.len() < target {
-                match self.next_frame(deadline, oracle) {
-                    Some(m) if m.status == ResponseStatus::Processing as i32 => continue,
+                match self.next_frame_within(deadline, silence, oracle) {
+                    Some(m) if m.id.starts_with("PROBE-") || m.status == ResponseStatus::Processing as i32 => continue,
                     Some(m) => got.push(self.account(&m, oracle)),
                     None => break,
                 }
@@ -267,15 +286,61 @@ impl W {
                 break;
             }
         }
-        if got.len() < target && self.dead().is_none() {
-            // answers must arrive without further prodding (the Status probe of `wstop` would
-            // wake a worker that left requests or answers sitting in a buffer)
-            let w = silence_window();
+        if got.len() >= target || self.dead().is_some() || self.liveness_failed {
+            return got;
+        }
+        // 2. the channel is quiet and answers are missing. Answers leave the worker in request
+        //    order, so a barrier settles it without relying on time: a Status sent now is answered
+        //    after everything asked before it - whatever is still missing then never comes.
+        self.barriers += 1;
+        let barrier_id = format!("PROBE-barrier-{}", self.barriers);
+        let probe = WorkerRequest { id: barrier_id.clone(), content: Request { request_type: Some(RequestType::Status(Status {})) } };
+        let before_barrier = got.len();
+        let mut barrier_answered = false;
+        if self.send(&probe) {
+            let deadline = Instant::now() + Duration::from_secs(60);
+            let wait = if confirmed { Duration::from_millis(1500) } else { Duration::from_secs(6) };
+            loop {
+                match self.next_frame_within(deadline, wait, oracle) {
+                    Some(m) if m.id == barrier_id => {
+                        if m.status != ResponseStatus::Processing as i32 {
+                            barrier_answered = true;
+                            break;
+                        }
+                    }
+                    Some(m) if m.id.starts_with("PROBE-") || m.status == ResponseStatus::Processing as i32 => continue,
+                    Some(m) => {
+                        if got.len() < target {
+                            got.push(self.account(&m, oracle));
+                        } else {
+                            let _ = self.account(&m, oracle);
+                        }
+                    }
+                    None => break,
+                }
+            }
+        }
+        if got.len() < target && barrier_answered {
+            oracle.push((
+                "worker-response-never-arrives".into(),
+                format!(
+                    "{} answer(s) were due, {} arrived; a Status sent afterwards was answered, and answers leave the worker in request order: request {} (and {} more) will never be answered",
+                    target, got.len(), self.outstanding.front().copied().unwrap_or(0), (target - got.len()).saturating_sub(1)
+                ),
+            ));
             CONFIRMED.store(true, std::sync::atomic::Ordering::Relaxed);
+            self.liveness_failed = true;
+        } else if got.len() > before_barrier && !confirmed {
+            // the missing answers came only after the worker was prodded (two full windows of silence before)
             oracle.push((
                 "worker-response-stalled".into(),
-                format!("{} answer(s) outstanding but only {} arrived; the worker then stayed silent for two windows of {:?}", target, got.len(), w),
+                format!("{} answer(s) were due, only {} arrived during two quiet windows of 6 s; the rest came after a further request woke the worker", target, before_barrier),
             ));
+            CONFIRMED.store(true, std::sync::atomic::Ordering::Relaxed);
+            self.liveness_failed = true;
+        } else if got.len() < target {
+            // neither the answers nor the barrier: `wstop` decides whether the worker is wedged
+            self.liveness_failed = true;
         }
         got
     }
@@ -292,7 +357,7 @@ impl W {
             // whatever is still in the socket now
             let deadline = Instant::now() + Duration::from_millis(200);
             while let Some(m) = self.next_frame(deadline, oracle) {
-                if m.status != ResponseStatus::Processing as i32 {
+                if m.status != ResponseStatus::Processing as i32 && !m.id.starts_with("PROBE-") {
                     let _ = self.account(&m, oracle);
                 }
             }
@@ -520,6 +585,16 @@ impl Area for ChanWorker {
             // the worker exited after a SoftStop with answers still unsent
             return "worker-softstop-drops-pending-responses".into();
         }
+        // fewer answers than the spec demands although the worker is alive at the end
+        let fewer = impl_out.iter().zip(_model_out.iter()).any(|(i, m)| {
+            i.starts_with("got ") && m.starts_with("got ") && i != m && {
+                let n = |l: &str| if l == "got -" { 0 } else { l.matches(',').count() + 1 };
+                n(i) < n(m)
+            }
+        });
+        if fewer && impl_out.iter().any(|l| l.starts_with("alive")) {
+            return "worker-response-never-arrives".into();
+        }
         if over && impl_out.iter().any(|l| l.starts_with("wedged")) {
             "worker-wedged-after-over-ceiling-response".into()
         } else {
@@ -611,6 +686,10 @@ impl Area for ChanWorker {
                 run.tags.push("response-frame-split-across-reads".into());
             }
             run.nontrivial = answers >= 10 && g.partial_frames;
+        }
+        // answers that never arrive also show up as lost / overtaken: report the root class only
+        if run.oracle.iter().any(|(c, _)| c == "worker-response-never-arrives") {
+            run.oracle.retain(|(c, _)| !matches!(c.as_str(), "worker-response-lost" | "worker-responses-out-of-order" | "worker-response-stalled"));
         }
         // keep at most one hit per class per case
         let mut seen = HashSet::new();
